@@ -1285,10 +1285,16 @@ impl Server {
         
         // Log to AOF for write commands. Commands with a random outcome are logged after they
         // ran, by that outcome (see SPOP and XADD below), so that a replay reproduces it.
-        let logged_by_outcome = command_name == "SPOP"
+        // A script is logged by the write commands it ran (see log_script_effects), not verbatim:
+        // re-executing the script would draw its random outcomes again and EVALSHA needs a cache.
+        let is_script = command_name == "EVAL" || command_name == "EVALSHA";
+        let logged_by_outcome = command_name == "SPOP" || is_script
             || (command_name == "XADD" && matches!(parts.get(2), Some(RespFrame::BulkString(Some(b))) if b.as_slice() == b"*"));
         if self.is_write_command(&command_name) && !logged_by_outcome {
             self.append_to_aof(db, parts);
+        }
+        if is_script && self.aof_engine.is_some() {
+            crate::storage::lua_engine::SCRIPT_EFFECTS.with(|effects| *effects.borrow_mut() = Some(Vec::new()));
         }
         
         // Route to command handler
@@ -1603,6 +1609,12 @@ impl Server {
             _ => Ok(RespFrame::error(format!("ERR unknown command '{}'", command_name))),
         };
         
+        if is_script {
+            if let Some(effects) = crate::storage::lua_engine::SCRIPT_EFFECTS.with(|effects| effects.borrow_mut().take()) {
+                self.log_script_effects(db, effects);
+            }
+        }
+        
         // Auto-save change recording - always enabled (independent of monitoring)
         if self.is_write_command(&command_name) {
             if let Ok(resp) = &result {
@@ -1694,6 +1706,36 @@ impl Server {
                 // No password set on server
                 Ok(RespFrame::error("ERR Client sent AUTH, but no password is set"))
             }
+        }
+    }
+    
+    /// Append the write commands a script ran, in execution order. Commands with a random
+    /// outcome are recorded by that outcome, like their direct forms.
+    fn log_script_effects(&self, db: usize, effects: Vec<(Vec<String>, RespFrame)>) {
+        for (args, reply) in effects {
+            let name = args[0].to_uppercase();
+            if !self.is_write_command(&name) || reply.is_error() {
+                continue;
+            }
+            let mut logged: Vec<RespFrame> = args.iter().map(|a| RespFrame::from_bytes(a.as_bytes().to_vec())).collect();
+            if name == "SPOP" {
+                let popped: Vec<RespFrame> = match &reply {
+                    member @ RespFrame::BulkString(Some(_)) => vec![member.clone()],
+                    RespFrame::Array(Some(members)) => members.clone(),
+                    _ => Vec::new(),
+                };
+                if popped.is_empty() || logged.len() < 2 {
+                    continue;
+                }
+                logged = vec![RespFrame::from_string("SREM"), logged[1].clone()];
+                logged.extend(popped);
+            } else if name == "XADD" && args.get(2).map(|a| a == "*").unwrap_or(false) {
+                match &reply {
+                    id @ RespFrame::BulkString(Some(_)) => logged[2] = id.clone(),
+                    _ => continue,
+                }
+            }
+            self.append_to_aof(db, &logged);
         }
     }
     
